@@ -291,6 +291,62 @@ def runSeqH (v : Variant) (exec : Cfg → Option (List (String × PV)) → List 
       let out := runSeqH v exec s cl rest
       (out.1, out.2.1, none :: out.2.2)
 
+/-! ### The owner of the client between two subscriptions
+
+  The client's attributes are plain, public, mutable: a refreshed token is
+  `client.ws_connection_init_payload = {...}` (rebinding) or `payload["token"] = ...` (mutating the dict
+  the client refers to); the same for `ws_headers`, `ws_origin`, `ws_url`.  A subscription must see
+  the configuration that is current WHEN IT STARTS - nothing a previous subscription computed may
+  survive in the client (`_send_connection_init` builds the message from `self.ws_connection_init_payload`
+  on every call). -/
+
+inductive Edit where
+  | setInit (p : Option Nat)          -- `client.ws_connection_init_payload = <dict object> / None`
+  | setHeaders (h : Nat)              -- `client.ws_headers = <dict object>`
+  | setOrigin (o : Option String)     -- `client.ws_origin = Origin(o) / None` (a non-empty string)
+  | setUrl (u : String)               -- `client.ws_url = u`
+  | write (a : Nat) (o : Obj)         -- `d.clear(); d.update(o)` on the dict object at `a`
+  deriving Repr
+
+def Edit.apply (e : Edit) (s : Store) (cl : ClientObj) : Store × ClientObj :=
+  match e with
+  | .setInit p => (s, { cl with initPayload := p })
+  | .setHeaders h => (s, { cl with wsHeaders := h })
+  | .setOrigin o => (s, { cl with origin := o })
+  | .setUrl u => (s, { cl with url := u })
+  | .write a o => (s.set a o, cl)
+
+/-- an in-place mutation names an object -/
+def Edit.inRange (e : Edit) (s : Store) : Bool :=
+  match e with
+  | .write a _ => a < s.length
+  | _ => true
+
+inductive Action where
+  | sub (st : Step)
+  | edit (e : Edit)
+  deriving Repr
+
+/-- subscriptions and owner's edits, in program order, on ONE client object -/
+def runActs (v : Variant) (exec : Cfg → Option (List (String × PV)) → List Frame → Trace) :
+    Store → ClientObj → List Action → Store × ClientObj × List (Option Obs)
+  | s, cl, [] => (s, cl, [])
+  | s, cl, .edit e :: rest => runActs v exec (e.apply s cl).1 (e.apply s cl).2 rest
+  | s, cl, .sub st :: rest =>
+    match runH v.merge exec s cl st.call st.vars st.frames with
+    | some (s', cl', tr) =>
+      let out := runActs v exec s' cl' rest
+      (out.1, out.2.1, some (observe v st.refuse st.take tr) :: out.2.2)
+    | none =>
+      let out := runActs v exec s cl rest
+      (out.1, out.2.1, none :: out.2.2)
+
+/-- the owner's edits alone (what the store and the client object should be afterwards) -/
+def editsOnly : Store → ClientObj → List Action → Store × ClientObj
+  | s, cl, [] => (s, cl)
+  | s, cl, .edit e :: rest => editsOnly (e.apply s cl).1 (e.apply s cl).2 rest
+  | s, cl, .sub _ :: rest => editsOnly s cl rest
+
 /-! ### Interleaved subscriptions (schedules)
 
   An async generator runs only while its consumer awaits `__anext__`; two subscriptions on one client
